@@ -1,11 +1,12 @@
 (* C03 -- polymorphic positions resolve to the unique most-derived match, never a guess.
    Proofs: Proofs/Polymorph.v, Proofs/WellTagged.v (recognize_sound).
-   Independence of the REGISTRATION order is not proved here (it is checked by the tie on every case under random
-   permutations of the registration order, implementation against itself and against the model); independence of
-   the order of Union members is proved (C03_union_order). *)
+   Independence of the order of Union members (C03_union_order) and of the REGISTRATION order
+   (C03_registration_order, Proofs/RegOrder.v) are both proved; the latter for registries with distinct class names
+   whose custom recognisers are functions of what their `recognised?` argument answers -- which holds for every
+   recogniser written with UnknownNode.require_* calls (C03_dsl_recognisers_qualify). *)
 From Coq Require Import NArith ZArith List Bool String Permutation.
 Import ListNotations.
-From Y Require Import Prelude Node Tables NodeOps Types Recognize Loader Hooks Spec WellTagged Polymorph.
+From Y Require Import Prelude Node Tables NodeOps Types Recognize Loader Hooks Spec WellTagged Polymorph RegOrder.
 Open Scope N_scope.
 
 (* Exactly one recognised type, or the load fails with RecognitionError: no guessing. *)
@@ -62,6 +63,25 @@ Theorem C03_union_order : forall rec ts ts' m tys e, Permutation ts ts' -> rec_u
   exists tys' e', rec_union rec ts' m = Ok (tys', e') /\ (forall t, In t tys <-> In t tys') /\ (forall t, tys = [t] -> tys' = [t]).
 Proof. exact rec_union_perm. Qed.
 Print Assumptions C03_union_order.
+
+(* The order in which the classes were registered is irrelevant: two registries that are permutations of each other
+   load the same documents to the same values (and fail on the same documents). *)
+Theorem C03_registration_order : forall o reg reg', Permutation reg reg' -> NoDup (map c_name reg) -> ext_hooks reg ->
+  forall doc T v, load o reg doc T = Ok v <-> load o reg' doc T = Ok v.
+Proof. exact load_order_iff. Qed.
+Print Assumptions C03_registration_order.
+(* at every node the same SET of types is recognised (the lists differ at most in order) *)
+Theorem C03_registration_order_recognition : forall o fuel reg reg', Permutation reg reg' -> NoDup (map c_name reg) -> ext_hooks reg ->
+  forall n T res, recognize o reg fuel n T = Ok res ->
+  exists res', recognize o reg' fuel n T = Ok res' /\ (forall t, In t (fst res) <-> In t (fst res')) /\
+               List.length (fst res) = List.length (fst res').
+Proof.
+  intros o fuel reg reg' HP Hnd Hext n T res E.
+  destruct (proj1 (recognize_order o fuel reg reg' HP Hnd Hext) n T res E) as (res' & E' & Q).
+  exists res'. split; [exact E'|]. split; [exact (proj1 Q) | exact (req_len _ _ Q)].
+Qed.
+Theorem C03_dsl_recognisers_qualify : forall o specs, ext_hooks (Hooks.interp_reg o specs).
+Proof. exact interp_reg_ext_hooks. Qed.
 
 (* ---- non-vacuity: Shape <- Circle, Square (both accept any mapping); a Shape position ---- *)
 Local Open Scope string_scope.
